@@ -83,7 +83,6 @@ func AssumeGE0(st *State, t Term) {
 	}
 }
 
-
 // ByteAt returns the symbolic value of s[idx] in st (no bounds obligation).
 func (a *Analyzer) ByteAt(st *State, s *Slice, idx Lin) Lin {
 	v := a.load(st, &Ptr{Elem: s.Base, ElemOff: s.Off.Add(idx), ElemTyp: types.Typ[types.Uint8]}, types.Typ[types.Uint8])
